@@ -79,6 +79,10 @@ def run_cases():
         case("keyword-field-name-travels-by-graphql-name", "with_input", dict(f=it.Filter(class_name="x")), {"f": {"className": "x"}})
         case("fields-named-like-BaseModel-attributes-travel-by-graphql-name", "with_input",
              dict(f=it.Filter(**{"modelDump": "d", "modelFields": 2, "copy": 3})), {"f": {"modelDump": "d", "modelFields": 2, "copy": 3}})
+        case("strings-inside-input-objects-travel-unchanged", "with_input",
+             dict(f=it.Filter(class_name="  padded note\n", inner=it.Inner(tag="  ")), fs=[it.Filter(class_name="\ttab ")]),
+             {"f": {"className": "  padded note\n", "inner": {"tag": "  ", "n": 7}}, "fs": [{"className": "\ttab "}]})
+        case("all-values-falsy-are-still-sent", "plain", dict(b=[], a=0, c=[]), {"b": [], "a": 0, "c": []})
         case("argument-named-like-a-method-local", "clash", dict(query="needle", data=3), {"query": "needle", "data": 3})
         case("camel-case-variable", "keyword", dict(class_name="c"), {"className": "c"})
         case("variable-that-becomes-a-method-local-after-snake-casing", "capital", dict(query="needle", data=4), {"Query": "needle", "DATA": 4})
